@@ -91,7 +91,23 @@ def check_step(ctx, env, desc, s, a, r, label, hist):
         v2 = f(fresh_equal(s), envs.ACTS[a], fresh_equal(s2))
         if v1 != v2:
             ctx.violation(f'the {what} answers differently on equal arguments ({v1!r} vs {v2!r}): it depends on history / identity', case)
+        # ... also after the same question was asked about ANOTHER world of the same environment in between (A, B, A)
+        other = _OTHER.get((id(env), what))
+        if other is not None and other[3] != before:
+            try:
+                f(other[0], other[1], other[2])
+                v3 = f(s, envs.ACTS[a], s2)
+                if v3 != v1:
+                    ctx.violation(f'the {what} answers differently ({v1!r}, then {v3!r}) after it was asked about another state in between: it depends on history',
+                                  dict(case, asked_in_between=gen.show_state(other[3])))
+            except Exception:  # noqa: BLE001  (a raising component is reported by the monitors above / by C12)
+                pass
+        if other is None or r.random() < 0.3:
+            _OTHER[(id(env), what)] = (fresh_equal(s), envs.ACTS[a], fresh_equal(s2), before)
     return s2, rwd, done
+
+
+_OTHER = {}
 
 
 _IENV = {}
